@@ -28,7 +28,49 @@ def valid_lines(rng):
 def render(lines):
     return "\n".join(" ".join(l) for l in lines)
 
+MULTI = ["/* a\nb */", "/* x */", "// rem\n", "[2 c\n d]", "Sub{ c\n d }", "{c\nd e}4", "'c\neg'", "[3 c :\n\n d]", "PRINT(\n1)" ]
+
+def gen_flat(rng):
+    """flat token list with explicit separators; tokens may span lines; a '^' continuation directly follows a note across line breaks.
+       returns [(token, separator-after, may-insert-after)]"""
+    toks = []
+    for _ in range(rng.randrange(1, 14)):
+        k = rng.random()
+        if k < 0.2:
+            cont = rng.choice(["^", "^4", "^8.", "^16"])
+            sep = rng.choice(["\n", "\n\n", " \n ", "\n  ", " ", "\n/* k */", "\n// k\n"])
+            toks.append((rng.choice(["c4", "d8", "e", "r4", "g2."]), sep, False)); toks.append((cont, None, True))
+        elif k < 0.35:
+            t = rng.choice(MULTI)
+            if t.startswith("PRINT"): t = rng.choice(MULTI[:-1])
+            toks.append((t, None, True))
+        else:
+            toks.append((rng.choice(["c", "d8", "e4.", "r", "l8", "o5", "v100", "q90", "[2 c d]", "n60,4", "'ceg'", "@3;", "y7,100;", "TR(2)", "Sub{c}", "{cde}4", ">", "<", "g2^8"]), None, True))
+    out = []
+    for t, sep, ins in toks:
+        if sep is None: sep = rng.choice([" ", " ", " ", "\n", "\n", "\n\n", " \n"])
+        out.append((t, sep, ins))
+    return out
+
 def gen_err_case(rng):
+    if rng.random() < 0.5: return gen_err_case_lines(rng)
+    toks = gen_flat(rng)
+    lead = "\n" * rng.choice([0, 0, 1, 3])
+    clean = lead; dirty = lead; exp = []
+    slots = [i for i, (t, sep, ins) in enumerate(toks) if ins]
+    chosen = {}
+    for _ in range(rng.randrange(1, 5)):
+        if slots:
+            chosen.setdefault(rng.choice(slots), []).append(rng.choice(BAD_CHARS) if rng.random() < 0.6 else rng.choice(BAD_WORDS))
+    for i, (t, sep, ins) in enumerate(toks):
+        if t.startswith("//"): sep = ""          # the line comment already ends its line
+        clean += t + sep; dirty += t + sep
+        for bad in chosen.get(i, []):
+            if not dirty.endswith((" ", "\n")): dirty += " "; clean += " "
+            exp.append((dirty.count("\n"), bad)); dirty += bad + " "
+    return clean, dirty, exp
+
+def gen_err_case_lines(rng):
     lines = valid_lines(rng)
     if rng.random() < 0.3: lines = [[] for _ in range(rng.randrange(1, 4))] + lines     # leading blank lines
     if rng.random() < 0.3:
@@ -85,7 +127,16 @@ def streams(tier, rng, P, only=None, cases=None):
         n = 3000 if big else 400
         for i in range(n):
             k = rng.random()
-            if k < 0.3:
+            if k < 0.15:
+                toks = gen_flat(rng); src = ""; exp = []
+                for t, sep, ins in toks:
+                    if t.startswith("//"): sep = ""
+                    src += t + sep
+                    if ins and rng.random() < 0.4:
+                        if not src.endswith((" ", "\n")): src += " "
+                        v = rng.randint(0, 99); exp.append("[PRINT](%d) %d" % (src.count("\n"), v)); src += "PRINT(%d); " % v
+                cs.append(dict(req="run " + hx(src), src=src, show=src[:300], kind="print", exp=exp, key="m%d" % i))
+            elif k < 0.3:
                 lines = valid_lines(rng); exp = []
                 for li in range(len(lines)):
                     if rng.random() < 0.5:
